@@ -274,19 +274,22 @@ func (s *Session) report(id string, cfg *CheckConfig, dev bool, t0 time.Time, lo
 		cmd.Env = append(os.Environ(), "VERIF_NO_SELFTEST=1")
 		out, _ := cmd.CombinedOutput()
 		var lines []string
-		caught, missed := 0, 0
+		caught, missed, skipped := 0, 0, 0
 		for _, l := range strings.Split(string(out), "\n") {
 			switch {
 			case strings.HasPrefix(l, "CAUGHT"):
 				caught++
 				lines = append(lines, trunc(l, 260))
-			case strings.HasPrefix(l, "MISSED"), strings.HasPrefix(l, "SKIP"):
+			case strings.HasPrefix(l, "MISSED"):
 				missed++
+				lines = append(lines, trunc(l, 260))
+			case strings.HasPrefix(l, "SKIP"):
+				skipped++
 				lines = append(lines, trunc(l, 260))
 			}
 		}
-		cov["must_fail_corpus"] = map[string]any{"caught": caught, "missed_or_skipped": missed, "results": lines}
-		fmt.Printf("%s: must-fail corpus: %d caught, %d missed/skipped\n", id, caught, missed)
+		cov["must_fail_corpus"] = map[string]any{"caught": caught, "missed": missed, "skipped_patch_does_not_apply": skipped, "results": lines}
+		fmt.Printf("%s: must-fail corpus: %d caught, %d missed, %d skipped (patch no longer applies)\n", id, caught, missed, skipped)
 	}
 	os.MkdirAll(filepath.Join(verifRoot, "evidence"), 0o755)
 	b, _ := json.MarshalIndent(ev, "", " ")
